@@ -117,7 +117,7 @@ def _param_index_of(facts, fpath, lid):
     return None
 
 
-def must_advance(facts, fpath, pidx, depth=0, stack=()):
+def must_advance(facts, fpath, pidx, depth=0, stack=(), next_params=frozenset()):
     """Does every normally-returning path of `fpath` set the level of its parameter #pidx from
     next_context_data (directly or through a callee that must)?  Returns True / False / None(unknown)."""
     if depth > 6 or fpath in stack:
@@ -132,6 +132,13 @@ def must_advance(facts, fpath, pidx, depth=0, stack=()):
     plid = pat["lid"]
     defs = Defs(body)
     unknown = [False]
+    # parameters through which the caller hands down a value derived from next_context_data()
+    next_lids = {q["pat"]["lid"] for j, q in enumerate(it["params"]) if j in next_params and q["pat"].get("k") == "PBind"}
+
+    def from_next(b):
+        if defs.derives_from_call(b, "next_context_data"):
+            return True
+        return any(y.get("k") == "Path" and y.get("res") == "local" and y.get("lid") in next_lids for y in defs.closure(b))
 
     def transfer(n, st):
         k = n.get("k")
@@ -143,12 +150,12 @@ def must_advance(facts, fpath, pidx, depth=0, stack=()):
             for ai, a in enumerate(args):
                 rl = root_local(a)
                 if rl and rl[0] == plid and (facts.ty_adj(a).startswith("&mut ") or facts.ty(a).startswith("&mut ")):
-                    if f["name"] in LEVEL_SETTERS and ai == 0 and \
-                            any(defs.derives_from_call(b, "next_context_data") for b in args[1:]):
+                    if f["name"] in LEVEL_SETTERS and ai == 0 and any(from_next(b) for b in args[1:]):
                         return True
                     tk = target_key(f)
                     if tk in facts.items and f.get("local"):
-                        r = must_advance(facts, tk, ai, depth + 1, stack + (fpath,))
+                        np_ = frozenset(j for j, b in enumerate(args) if j != ai and from_next(b))
+                        r = must_advance(facts, tk, ai, depth + 1, stack + (fpath,), np_)
                         if r is True:
                             return True
                         if r is None:
@@ -188,6 +195,11 @@ def run(facts, rep, scope_files=None, level_walk=True):
             n_loops += 1
             loc = facts.loc(p, lp)
             if lp["k"] == "Loop":
+                # `loop { if COND { break } .. }` is `while !COND { .. }`: the level-walk clause applies to it as well
+                st0 = (lp["body"].get("stmts") or [None])[0] if lp["body"].get("k") == "Block" else None
+                e0 = strip(st0.get("e")) if st0 and st0.get("k") in ("Semi", "Expr") else {}
+                if e0.get("k") == "If" and not e0.get("el") and any(y.get("k") == "Break" for y in walk(e0["th"])):
+                    n_walk += _level_walk(facts, rep, p, lp, e0["c"], lp["body"], idx - 1, loc) if level_walk else 0
                 if contains_exit(lp):
                     rep.ok("R-LOOP", key, "`loop` has a break/return/? exit", loc, nontrivial=False)
                 else:
@@ -226,48 +238,51 @@ def run(facts, rep, scope_files=None, level_walk=True):
                                   (", ".join(names_r), ", ".join(sorted({_name_of(W[l]) for l in W})) or "nothing"),
                                   loc, sample={"reads": names_r})
                 continue
-            # level-walking loops
-            if not level_walk:
-                continue
-            walked = None
-            for x in walk(cond):
-                f = callee(x)
-                if x.get("k") == "MCall" and f and f["name"] == "parms_id":
-                    rl = root_local(x["recv"])
-                    if rl and rl[0] in W:
-                        walked = rl
-            if walked is None:
-                continue
-            n_walk += 1
-            akey = "%s/%s#%d/%s" % (p, "while", idx - 1, walked[1])
-            verdicts = []
-            for x in walk(lp["body"]):
-                f = callee(x)
-                if f is None or x.get("k") not in ("Call", "MCall"):
-                    continue
-                args = ([x["recv"]] if x["k"] == "MCall" else []) + x["args"]
-                for ai, a in enumerate(args):
-                    rl = root_local(a)
-                    if rl and rl[0] == walked[0] and (facts.ty_adj(a).startswith("&mut ") or facts.ty(a).startswith("&mut ")):
-                        tk = target_key(f)
-                        if tk in facts.items:
-                            verdicts.append((tk, must_advance(facts, tk, ai)))
-                            rep.stats["paths"] += 1
-            if not verdicts:
-                rep.unresolved("R-LOOP(adv)", akey, "no local callee receives `%s` mutably" % walked[1], loc)
-            elif any(v is True for _, v in verdicts):
-                rep.ok("R-LOOP(adv)", akey, "`%s` is advanced on every normal path of %s" %
-                       (walked[1], ", ".join(t for t, v in verdicts if v is True)), loc,
-                       sample={"walked": walked[1], "callee": [t for t, v in verdicts if v is True]})
-            elif any(v is None for _, v in verdicts):
-                rep.unresolved("R-LOOP(adv)", akey, "advance summary unknown for %s" %
-                               ", ".join(t for t, _ in verdicts), loc)
-            else:
-                rep.violation("R-LOOP(adv)", akey,
-                              "level-walking loop: %s can return normally without moving `%s` to the next level "
-                              "(no resize/set_parms_id fed from next_context_data on some path): for such inputs the "
-                              "loop condition never changes" % (", ".join(t for t, _ in verdicts), walked[1]), loc)
+            if level_walk:
+                n_walk += _level_walk(facts, rep, p, lp, cond, lp["body"], idx - 1, loc)
     return n_loops, n_walk
+
+
+def _level_walk(facts, rep, p, lp, cond, lbody, ordinal, loc):
+    """level-walking clause for one loop; returns 1 if the loop walks a level, else 0"""
+    W = may_writes(facts, [cond, lbody])
+    walked = None
+    for x in walk(cond):
+        f = callee(x)
+        if x.get("k") == "MCall" and f and f["name"] == "parms_id":
+            rl = root_local(x["recv"])
+            if rl and rl[0] in W:
+                walked = rl
+    if walked is None:
+        return 0
+    akey = "%s/%s#%d/%s" % (p, "while", ordinal, walked[1])
+    verdicts = []
+    for x in walk(lbody):
+        f = callee(x)
+        if f is None or x.get("k") not in ("Call", "MCall"):
+            continue
+        args = ([x["recv"]] if x["k"] == "MCall" else []) + x["args"]
+        for ai, a in enumerate(args):
+            rl = root_local(a)
+            if rl and rl[0] == walked[0] and (facts.ty_adj(a).startswith("&mut ") or facts.ty(a).startswith("&mut ")):
+                tk = target_key(f)
+                if tk in facts.items:
+                    verdicts.append((tk, must_advance(facts, tk, ai)))
+                    rep.stats["paths"] += 1
+    if not verdicts:
+        rep.unresolved("R-LOOP(adv)", akey, "no local callee receives `%s` mutably" % walked[1], loc)
+    elif any(v is True for _, v in verdicts):
+        rep.ok("R-LOOP(adv)", akey, "`%s` is advanced on every normal path of %s" %
+               (walked[1], ", ".join(t for t, v in verdicts if v is True)), loc,
+               sample={"walked": walked[1], "callee": [t for t, v in verdicts if v is True]})
+    elif any(v is None for _, v in verdicts):
+        rep.unresolved("R-LOOP(adv)", akey, "advance summary unknown for %s" % ", ".join(t for t, _ in verdicts), loc)
+    else:
+        rep.violation("R-LOOP(adv)", akey,
+                      "level-walking loop: %s can return normally without moving `%s` to the next level "
+                      "(no resize/set_parms_id fed from next_context_data on some path): for such inputs the "
+                      "loop condition never changes" % (", ".join(t for t, _ in verdicts), walked[1]), loc)
+    return 1
 
 
 def _name_of(node):
